@@ -783,6 +783,18 @@ class Gen(object):
                     chain += [{'k': 'A', 'rel': 'R1', 'ph': ''}, {'k': 'B', 'rel': 'R1', 'ph': ''}]
                 out.append({'t': 'select_related', 'card': 'any', 'v': v, 'h': V(sa), 'chain': chain, 'haswhere': True, 'w': cond()})
                 out.append(fold_inst(v))
+        # a handle that is empty in the outer block and bound again in a nested block (a search loop; find or create)
+        f = self.fresh('inst:B', 'f')
+        out.append({'t': 'select_from', 'card': 'any', 'v': f, 'k': 'B', 'haswhere': True, 'w': Bin('==', sel, I(0))})
+        sb, e = self.fresh('set:B', 's'), self.fresh('inst:B', 'e')
+        out.append({'t': 'select_from', 'card': 'many', 'v': sb, 'k': 'B', 'haswhere': False, 'w': B(True)})
+        out.append({'t': 'for', 'v': e, 's': sb, 'b': [If(Bin('==', Field(V(e), 'N'), I(r.choice(vals + [0]))), [Assign(V(f), V(e))])]})
+        out.append(fold_inst(f))
+        g = self.fresh('inst:B', 'g')
+        out.append({'t': 'select_related', 'card': 'any', 'v': g, 'h': V(a), 'chain': [{'k': 'B', 'rel': 'R1', 'ph': ''}],
+                    'haswhere': True, 'w': Bin('==', sel, I(r.choice([0, 0, vals[-1]])))})
+        out.append(If(Un('empty', V(g)), [{'t': 'create', 'v': g, 'k': 'B'}, Assign(Field(V(g), 'N'), I(9))]))
+        out.append(fold_inst(g))
         out.append(Assign(Field(V(a), 'N'), V(t)))
         return out
 
